@@ -30,9 +30,9 @@ ASSUMPTIONS = ['fresh-object replay = the code itself without history (sequentia
                'search_results() before any search is not generated (no documented answer)']
 EXHAUSTIVE = {'quick': False, 'thorough': False}
 HASH_SEEDS = {'quick': [0], 'thorough': [0, 1, 2]}
-MINIMA = {'quick': {'sibling_searches': 80, 'ops_compared': 1500, 'set:bigrams': 100, 'distinct_nontrivial': 150, 'repeat_results': 100,
+MINIMA = {'quick': {'returned_design_edits': 50, 'sibling_searches': 80, 'ops_compared': 1500, 'set:bigrams': 100, 'distinct_nontrivial': 150, 'repeat_results': 100,
                     'param_snapshots': 1500},
-          'thorough': {'sibling_searches': 1000, 'ops_compared': 20000, 'set:bigrams': 150, 'distinct_nontrivial': 2000, 'repeat_results': 1500,
+          'thorough': {'returned_design_edits': 700, 'sibling_searches': 1000, 'ops_compared': 20000, 'set:bigrams': 150, 'distinct_nontrivial': 2000, 'repeat_results': 1500,
                        'param_snapshots': 20000}}
 N = {'quick': 320, 'thorough': 4000}
 CASE_TIMEOUT = {'quick': 300, 'thorough': 900}
@@ -258,6 +258,31 @@ def run_case(spec):
       else:
         last_search_answer = None
         seen_search = False
+  # no process-wide hidden state: whatever the caller does to the arrays inside designs it was handed, a search on a
+  # freshly built object afterwards must still give the fresh-object answer recorded before
+  if spec['idx'] % 3 == 0 and not violations:
+    which_ = r.choice(['exhaustive_search', 'greedy_search'])
+    fb = util.call(sl.build, case)
+    if fb.ok:
+      base = util.call(do_op, fb.value[2], which_, 0)
+      got_designs = util.call(getattr(mm, which_))
+      if got_designs.ok:
+        for d_ in got_designs.value:
+          for arr in (getattr(d_.diag.bbtest, 'bounds', None), getattr(d_.diag.bbtest, 'abscumresid', None), d_.diag.x, d_.diag.y,
+                      getattr(d_.diag.pretestfit, 'resid', None)):
+            try:
+              if arr is not None:
+                arr *= 0.0
+            except Exception:  # pylint: disable=broad-except
+              pass
+        counters['returned_design_edits'] += 1
+        fb2 = util.call(sl.build, case)
+        if fb2.ok:
+          after = util.call(do_op, fb2.value[2], which_, 0)
+          if base.ok != after.ok or (base.ok and base.value != after.value):
+            violations.append({'clause': 'process-wide-state', 'mech': 'process-wide-state',
+                               'detail': '%s on a fresh object changed after the caller zeroed the arrays inside designs returned to it: %s vs %s' % (
+                                   which_, _short(base.value if base.ok else base.describe()), _short(after.value if after.ok else after.describe()))})
   for a in probes.ALARMS[:3]:
     # P-HEAP reads the container twice at every retrieval and compares the two reads item by item
     violations.append({'clause': 'repeat-results', 'mech': 'heap-' + str(a.get('clause')),
